@@ -34,12 +34,12 @@ Definition w_schema : schema :=
     [mk_union "UAB" ["MA"; "MB"]] "Query".
 
 Definition w_t1 (k f : Z) (sub : value) :=
-  VObj "T1" [("s0", OOk (VLeaf (JNum k))); ("f0", OOk (VLeaf (JNum f))); ("f1", OOk sub)].
+  VObj "T1" [("s0", OOk (VLeaf (LNum k))); ("f0", OOk (VLeaf (LNum f))); ("f1", OOk sub)].
 Definition w_root : value :=
   VObj "Query"
     [("r1", OOk (w_t1 20 9 (w_t1 21 3 VNull)));
-     ("r2", OOk (VList [VObj "MA" [("name", OOk (VLeaf (JStr "bob"))); ("m0", OOk (VLeaf (JNum 1%Z)))];
-                        VObj "MB" [("label", OOk (VLeaf (JStr "x")))]; VNull]))].
+     ("r2", OOk (VList [VObj "MA" [("name", OOk (VLeaf (LStr "bob"))); ("m0", OOk (VLeaf (LNum 1%Z)))];
+                        VObj "MB" [("label", OOk (VLeaf (LStr "x")))]; VNull]))].
 
 Definition fld a n ds sub := SField a n n ds sub.
 Definition lit b := CLit (JBool b).
